@@ -75,6 +75,7 @@ structure WCfg where
   reinvest : Bool
   forced : Bool
   matchImmediately : Bool        -- matching type current_bar / vwap: every submission triggers a matching round
+  daily : Bool                   -- frequency '1d': before the bar event the clock stands at 00:00 and the day bar is not known yet
 
 /-- what the data layer answers about one instrument on one trading day -/
 structure DayIns where
@@ -266,6 +267,9 @@ def matchPost (cfg : MCfg) (ic : InsCfg) (o : Ord) (f : Int) (price : R) (cashPl
 /-- one `matcher.match(account, order, open_auction)` call inside the world: the order afterwards, the events, the world -/
 def World.matchOne (w : World) (auction : Bool) (o : Ord) : World × Ord × List WEv :=
   if o.isFinal then (w, o, [])
+  else if w.cfg.daily && !auction && (w.phase == .before || w.phase == .auction) then
+    -- (repaired, finding F43) daily frequency, clock still at 00:00: the day bar is not known yet, a non-auction order rests until the bar
+    (w, o, [])
   else
     match w.cfg.find o.ins, w.dayOf o.ins with
     | some wi, some d =>
